@@ -2227,7 +2227,10 @@ impl<'input, T: Input> Scanner<'input, T> {
 
         loop {
             self.input.lookahead(4);
-            if (self.leading_whitespace && self.input.next_is_document_indicator())
+            // A document indicator is only one at the very start of a line.
+            if (self.leading_whitespace
+                && self.mark.col == 0
+                && self.input.next_is_document_indicator())
                 || self.input.peek() == '#'
             {
                 break;
